@@ -72,6 +72,9 @@ pub struct Reflex {
     pub ignore_conn_close: bool,
     /// Frame size used when the reflex itself sends content (get answers).
     pub content_chunk: usize,
+    /// Name consumer tags per channel ("c0", "c1", ...), so that different channels
+    /// use identical tags (tags are only unique within a channel).
+    pub per_channel_tags: bool,
     // ---- state
     pub seq: HashMap<u16, u64>,
     pub held: Vec<Held>,
@@ -114,6 +117,7 @@ impl Default for Reflex {
             eof_after_close_ok: false,
             ignore_conn_close: false,
             content_chunk: 4000,
+            per_channel_tags: false,
             seq: HashMap::new(),
             held: Vec::new(),
             confirm: HashMap::new(),
@@ -598,7 +602,9 @@ impl Reflex {
             AMQPClass::Basic(B::Consume(c)) => {
                 if !c.nowait {
                     let seq = self.next_seq(ch);
-                    let tag = if c.consumer_tag.is_empty() {
+                    let tag = if c.consumer_tag.is_empty() && self.per_channel_tags {
+                        format!("c{}", self.consumer_tags.iter().filter(|(c2, _)| *c2 == ch).count())
+                    } else if c.consumer_tag.is_empty() {
                         consumer_tag_for(ch, seq)
                     } else {
                         c.consumer_tag.clone()
